@@ -6,7 +6,7 @@ def parse_ranges(rs):
     return [] if rs in ('', '-') else [tuple(int(x) for x in r.split('-')) for r in rs.split(',')]
 
 def respond(B, ranges, boundary=b'00000000000000000023', quote=False, extra_headers=(), ctype=b'application/octet-stream',
-            first_crlf=True, hdr_spelling=b'Content-Range', preamble=b''):
+            first_crlf=True, hdr_spelling=b'Content-Range', preamble=b'', first_extra=(), later_plain=False, epilogue=b''):
     """-> (header lines [bytes], body bytes).  One range: 206 with the plain slice; several: multipart/byteranges."""
     total = len(B)
     if len(ranges) == 1:
@@ -18,11 +18,14 @@ def respond(B, ranges, boundary=b'00000000000000000023', quote=False, extra_head
     body = bytearray(preamble)
     for k, (s, e) in enumerate(ranges):
         body += (b'\r\n' if (k > 0 or first_crlf) else b'') + b'--' + boundary + b'\r\n'
-        body += b'Content-Type: ' + ctype + b'\r\n'
-        for h in extra_headers: body += h + b'\r\n'
+        if not (later_plain and k > 0):      # later_plain: only the first part carries more than its Content-Range line
+            body += b'Content-Type: ' + ctype + b'\r\n'
+            for h in extra_headers: body += h + b'\r\n'
+        if k == 0:
+            for h in first_extra: body += h + b'\r\n'
         body += hdr_spelling + b': bytes %d-%d/%d\r\n\r\n' % (s, e, total)
         body += B[s:e + 1]
-    body += b'\r\n--' + boundary + b'--\r\n'
+    body += b'\r\n--' + boundary + b'--\r\n' + epilogue
     hdrs = [b'HTTP/1.1 206 Partial Content\r\n', b'Content-Type: multipart/byteranges; boundary=' + bq + b'\r\n',
             b'Content-Length: %d\r\n' % len(body), b'\r\n']
     return hdrs, bytes(body)
